@@ -589,9 +589,11 @@ def builders_invariant_in_value_type(chk, prog, rule="builders-invariant-in-valu
     made, and written with the value type it has when it is completed. The two are the same type only if the builder
     is *invariant* in every type parameter the value type is made of (as Gc itself is): with a covariant parameter,
     plain subtyping turns a builder registered for `Static<Box<dyn Fn() + 'static>>` (nothing to trace) into one that
-    accepts a closure owning Gc pointers. The metadata / marker parameters (M, P: 'static data in the vtable, a marker
-    type) are exempt by name; any other type parameter must be invariant (variances from the compiler)."""
-    EXEMPT = {"M", "P"}
+    accepts a closure owning Gc pointers. The same holds for the metadata strategy parameters (M, P): the block is laid
+    out, and its per-value metadata written, for the P the builder is made with and read back through the P of the
+    finished Gc (F16 - they were exempt by name until a hunter showed two strategies related by subtyping). Every type
+    parameter must be invariant (variances from the compiler)."""
+    EXEMPT = set()
     n = 0
     for bt in BUILDER_TYPES:
         a = prog.adts.get(bt)
@@ -606,4 +608,4 @@ def builders_invariant_in_value_type(chk, prog, rule="builders-invariant-in-valu
                             "completion the builder's value type can be changed by subtyping, so the allocation is registered "
                             "(vtable, needs-trace flag) for one type and written as another" % (g["name"], bt, g.get("variance")),
                      loc="%s:%s" % (a["span"]["f"], a["span"]["l"]), sample={"type": bt, "param": g["name"], "variance": g.get("variance")})
-    chk.floor("builder-value-type-parameters", n, 6)
+    chk.floor("builder-value-type-parameters", n, 10)
